@@ -421,4 +421,194 @@ theorem C14_folder_visible_only_by_scan (n : Node) (op : Op) (j : Nat) (G G' : F
   · simp only [hc, if_false] at h
     exact absurd h hne
 
+
+/-! ## 3. actual health changes only through explicit events and their timed completion -/
+
+/-- The explicit events that can write the actual health of software item `x` (state before the step) in step `op`,
+with the value they write. Everything else is `False`. -/
+def swActualCause (n : Node) (op : Op) (x : Sw) (new : SwH) : Prop :=
+  match op with
+  /- attack / external writer (connection capacity, web-server dependency, database restore) -/
+  | .swSet nm h => nm = x.name ∧ new = h.toSwH
+  | .sw _ nm .compromise => n.power = .on ∧ nm = x.name ∧ new = .compromised
+  /- fix accepted -/
+  | .sw _ nm .fix => n.power = .on ∧ nm = x.name ∧ x.op = .running ∧ x.canFix = true ∧ new = .fixing
+  /- first start / run -/
+  | .sw _ nm .start => n.power = .on ∧ nm = x.name ∧ x.actual = .unused ∧ new = .good
+  | .appRun nm => n.power = .on ∧ nm = x.name ∧ x.actual = .unused ∧ new = .good
+  | .startup => x.actual = .unused ∧ new = .good
+  /- a timestep: first start at the end of booting, timed completion of a fix, timed completion of an installation -/
+  | .tick =>
+    new = .good ∧
+      (x.actual = .unused ∨ (x.actual = .fixing ∧ ∃ c, x.fixCd = some c ∧ c ≤ 1) ∨
+       (x.isApp = true ∧ x.op = .installing ∧ ∃ c, x.auxCd = some c ∧ c ≤ 1))
+  | _ => False
+
+theorem Sw.shutDown_actual (x : Sw) : x.shutDown.actual = x.actual := by
+  unfold Sw.shutDown; (repeat' split) <;> rfl
+
+theorem Sw.startUp_actual (x : Sw) : x.startUp.actual = x.actual ∨ (x.actual = .unused ∧ x.startUp.actual = .good) :=
+  x.startUp_rel.actual
+
+theorem Sw.fixTick_actual (x : Sw) :
+    x.fixTick.actual = x.actual ∨ (x.actual = .fixing ∧ (∃ c, x.fixCd = some c ∧ c ≤ 1) ∧ x.fixTick.actual = .good) := by
+  unfold Sw.fixTick
+  split
+  · rename_i hf
+    unfold Sw.updateFix
+    split
+    · rename_i c hc
+      split
+      · exact Or.inr ⟨hf, ⟨c, hc, by omega⟩, rfl⟩
+      · exact Or.inl rfl
+    · exact Or.inl rfl
+  · exact Or.inl rfl
+
+theorem Sw.fixTick_rest (x : Sw) :
+    x.fixTick.isApp = x.isApp ∧ x.fixTick.op = x.op ∧ x.fixTick.auxCd = x.auxCd := by
+  unfold Sw.fixTick Sw.updateFix; (repeat' split) <;> exact ⟨rfl, rfl, rfl⟩
+
+theorem Sw.auxTick_actual (x : Sw) :
+    x.auxTick.actual = x.actual ∨
+      (x.isApp = true ∧ x.op = .installing ∧ (∃ c, x.auxCd = some c ∧ c ≤ 1) ∧ x.auxTick.actual = .good) := by
+  unfold Sw.auxTick
+  split
+  · rename_i ha
+    split
+    · rename_i hi
+      split
+      · rename_i c hc
+        split
+        · exact Or.inr ⟨ha, hi, ⟨c, hc, by omega⟩, rfl⟩
+        · exact Or.inl rfl
+      · exact Or.inl rfl
+    · exact Or.inl rfl
+  · (repeat' split) <;> exact Or.inl rfl
+
+theorem tickEff_actual (n : Node) (x : Sw) (h : (tickEff n x).actual ≠ x.actual) :
+    (tickEff n x).actual = .good ∧
+      (x.actual = .unused ∨ (x.actual = .fixing ∧ ∃ c, x.fixCd = some c ∧ c ≤ 1) ∨
+       (x.isApp = true ∧ x.op = .installing ∧ ∃ c, x.auxCd = some c ∧ c ≤ 1)) := by
+  have hp := powerEff_rel n x
+  -- y = the item after the power phase and the (possible) node scan; scanning does not touch anything used below
+  have key : ∀ y : Sw, y.actual = (powerEff n x).actual → y.fixCd = (powerEff n x).fixCd → y.auxCd = (powerEff n x).auxCd →
+      y.isApp = (powerEff n x).isApp → y.op = (powerEff n x).op → y.tick.actual ≠ x.actual →
+      y.tick.actual = .good ∧
+        (x.actual = .unused ∨ (x.actual = .fixing ∧ ∃ c, x.fixCd = some c ∧ c ≤ 1) ∨
+         (x.isApp = true ∧ x.op = .installing ∧ ∃ c, x.auxCd = some c ∧ c ≤ 1)) := by
+    intro y ha hf hx hi ho hne
+    unfold Sw.tick at hne ⊢
+    have h1 := y.fixTick_actual
+    have h2 := y.fixTick.auxTick_actual
+    have hr := y.fixTick_rest
+    rcases h2 with e2 | ⟨a2, i2, ⟨c, c2, cle⟩, g2⟩
+    · rcases h1 with e1 | ⟨f1, ⟨c, c1, cle⟩, g1⟩
+      · -- nothing happened in the item tick: the change came from the power phase
+        rcases hp.actual with e | ⟨u, g⟩
+        · exact absurd (by rw [e2, e1, ha, e]) hne
+        · exact ⟨by rw [e2, e1, ha, g], Or.inl u⟩
+      · rcases hp.actual with e | ⟨u, g⟩
+        · exact ⟨by rw [e2, g1], Or.inr (Or.inl ⟨by rw [← e, ← ha]; exact f1, c, by rw [← hp.fixCd, ← hf]; exact c1, cle⟩)⟩
+        · exact ⟨by rw [e2, g1], Or.inl u⟩
+    · refine ⟨g2, ?_⟩
+      rcases hp.actual with _ | ⟨u, _⟩
+      · refine Or.inr (Or.inr ⟨?_, ?_, c, ?_, cle⟩)
+        · rw [← hp.same.isApp, ← hi, ← hr.1]; exact a2
+        · rw [← hp.installing, ← ho, ← hr.2.1]; exact i2
+        · rw [← hp.auxCd, ← hx, ← hr.2.2]; exact c2
+      · exact Or.inl u
+  unfold tickEff at h ⊢
+  split at h
+  · rename_i hon
+    simp only [hon, if_true]
+    split at h
+    · rename_i hs
+      simp only [hs, if_true]
+      exact key (powerEff n x).scan rfl rfl rfl rfl rfl h
+    · rename_i hs
+      simp only [hs, if_false]
+      exact key (powerEff n x) rfl rfl rfl rfl rfl h
+  · rename_i hon
+    simp only [hon, if_false]
+    rcases hp.actual with e | ⟨u, g⟩
+    · exact absurd e h
+    · exact ⟨g, Or.inl u⟩
+
+/-- **C14 (software actual health, one step, any state).** The actual health of a software item differs after an
+operation only if the operation is one of the enumerated writers for that item (`swActualCause`): an attack or
+another external `set_health_state`, an accepted fix, a first start/run, or a timestep that starts it, completes
+its fix, or completes its installation — and the new value is the one that writer sets. -/
+theorem C14_sw_actual_only_by_event (n : Node) (op : Op) (i : Nat) (x x' : Sw)
+    (hx : n.sws[i]? = some x) (hx' : (n.apply op).sws[i]? = some x') (hne : x'.actual ≠ x.actual) :
+    swActualCause n op x x'.actual := by
+  rw [apply_sws, List.getElem?_map, hx] at hx'
+  simp only [Option.map_some, Option.some.injEq] at hx'
+  subst hx'
+  cases op <;> simp only [swEff, swActualCause] at hne ⊢
+  case tick => exact tickEff_actual n x hne
+  case shutdown =>
+    exfalso; apply hne
+    (repeat' split) <;> first | rfl | exact x.shutDown_actual
+  case reset =>
+    exfalso; apply hne
+    (repeat' split) <;> first | rfl | exact x.shutDown_actual
+  case startup =>
+    split at hne
+    · rcases (powerOnEff_rel n x).actual with e | ⟨u, g⟩
+      · exact absurd e hne
+      · rename_i hoff; rw [if_pos hoff]; exact ⟨u, g⟩
+    · exact absurd rfl hne
+  case osScan => exact hne rfl
+  case sw isApp nm r =>
+    split at hne
+    · rename_i hon
+      simp only [hon, if_true] at ⊢
+      unfold Sw.request at hne ⊢
+      split at hne
+      · rename_i hacc
+        simp only [hacc, if_true]
+        simp only [Sw.accepts, Bool.and_eq_true, decide_eq_true_eq] at hacc
+        obtain ⟨⟨⟨hn, _⟩, _⟩, hal⟩ := hacc
+        cases r <;> simp only [Sw.handle] at hne ⊢
+        case scan => exact absurd rfl hne
+        case fix =>
+          have hrun : x.op = .running := by simpa [SwReq.allowed, SwReq.guard] using hal
+          unfold Sw.fix at hne ⊢
+          split at hne
+          · rename_i hc; rw [if_pos hc]; exact ⟨trivial, hn.symm, hrun, hc, rfl⟩
+          · exact absurd rfl hne
+        case compromise => exact ⟨trivial, hn.symm, rfl⟩
+        case start =>
+          split at hne
+          · rename_i hs
+            simp only [hs, if_true] at ⊢
+            rcases x.wake_rel.actual with e | ⟨u, g⟩
+            · exact absurd e hne
+            · exact ⟨trivial, hn.symm, u, g⟩
+          · exact absurd rfl hne
+        all_goals (exfalso; apply hne; (repeat' split) <;> rfl)
+      · exact absurd rfl hne
+    · exact absurd rfl hne
+  case swSet nm h =>
+    split at hne
+    · rename_i hn; rw [if_pos hn]; exact ⟨hn.symm, rfl⟩
+    · exact absurd rfl hne
+  case appInstall nm =>
+    exfalso; apply hne
+    split
+    · unfold Sw.install; split <;> rfl
+    · rfl
+  case appRun nm =>
+    split at hne
+    · rename_i hon
+      split at hne
+      · rename_i hn
+        rw [if_pos hon, if_pos hn]
+        rcases x.startUp_rel.actual with e | ⟨u, g⟩
+        · exact absurd e hne
+        · exact ⟨hon, hn.1.symm, u, g⟩
+      · exact absurd rfl hne
+    · exact absurd rfl hne
+  all_goals exact hne rfl
+
 end Primaite.Health
